@@ -178,5 +178,8 @@ MatchesRef == hist # <<>> => LET r == Ref(Len(hist)) IN ~r.conflict /\ r.X = New
 \* attribute (1); on a self-locking chain the instant-0 lock decision reads it.  The claim is made for every other case.
 F4Case == SLflag /\ epochs # <<>> /\ epochs[1].hist[1].pwm # "1"
 C12_SplitAndRerun == ~F4Case => MatchesRef
+\* reachability witness (vacuity guard): TLC must find a state after a reset in which a second Solver has recorded at least three
+\* instants of a held self-locking chain - i.e. "violating" this invariant shows the interesting part of the space is explored
+Witness_DeepRerun == ~(epochs # <<>> /\ Len(hist) >= 3 /\ Len(solvers) = 2 /\ lastSid = 2 /\ SLflag /\ attr.lk)
 C12_Unguarded == MatchesRef            \* used by MC_Solver_F4.cfg: TLC must FIND the F4 counterexample
 =============================================================================
